@@ -276,8 +276,14 @@ structure Defects where
   partialRefusal : Bool
 deriving Repr, DecidableEq
 
-def Defects.asImplemented : Defects := { hashOrderIds := true, partialRefusal := true }
+/-- What /repo does and what the correspondence run validates. Both deviations were found by this check,
+    confirmed on the real code (corpus/C15) and fixed in /repo (commits e35fd01 `hashOrderIds`,
+    fb21964 `partialRefusal`); the switches are kept so that the witnesses `C15_breaks_*` and the
+    regression replays keep describing what a revert of either fix would bring back. -/
+def Defects.asImplemented : Defects := { hashOrderIds := false, partialRefusal := false }
 def Defects.none : Defects := { hashOrderIds := false, partialRefusal := false }
+/-- the code before the two fixes -/
+def Defects.beforeFixes : Defects := { hashOrderIds := true, partialRefusal := true }
 
 /-- key of something iterated out of a hash map -/
 inductive Key where
@@ -521,5 +527,16 @@ def Inst.get (s : Inst) (n e : String) (fs : List String) : Except PutErr (List 
         if fs.any (fun f => (ent.findField f).isNone) then .error .unknownField else
         .ok ((s.rows.filter fun r => r.ent == entShort ns ent).map fun r =>
           (r.no, fs.filterMap fun f => (ent.findField f).map fun fd => (f, readField fd r.vals)))
+
+
+/-! ### observables used by the property statements -/
+
+def Model.nsId (m : Model) (n : String) : Option Nat := (m.findNs n).map (·.id)
+
+def Model.entK (m : Model) (n e : String) : Option Nat := (m.findEntity n e).map (·.k)
+
+def Model.findField (m : Model) (n e f : String) : Option Field := (m.findEntity n e).bind (·.findField f)
+
+def Model.fieldShort (m : Model) (n e f : String) : Option Nat := (m.findField n e f).map (·.short)
 
 end Discret.DM
